@@ -129,7 +129,7 @@ func Supervise(t *testing.T) bool {
 	_ = os.Remove(stateFile("verdicts"))
 	resume := 0
 	for round := 0; round < 200; round++ {
-		cmd := exec.Command(os.Args[0], os.Args[1:]...)
+		cmd := childCommand(context.Background())
 		cmd.Env = append(os.Environ(), "VERIF_CRASH_CHILD=1", "VERIF_CRASH_RESUME="+strconv.Itoa(resume))
 		cmd.Stdout, cmd.Stderr = os.Stdout, os.Stderr
 		err := cmd.Run()
@@ -153,7 +153,7 @@ func Supervise(t *testing.T) bool {
 		deaths, cause := 0, ""
 		for k := 0; k < 3; k++ {
 			ctx, cancel := context.WithTimeout(context.Background(), 150*time.Second)
-			c := exec.CommandContext(ctx, os.Args[0], os.Args[1:]...)
+			c := childCommand(ctx)
 			c.Env = append(os.Environ(), "VERIF_CRASH_CHILD=1", "VERIF_REPLAY="+rp, "VERIF_REPORT="+rp+".report", "VERIF_CRASH_REPRO=1")
 			out, cerr := c.CombinedOutput()
 			timedOut := ctx.Err() != nil
@@ -202,4 +202,18 @@ func MarkDone() {
 		return
 	}
 	NewPending().Done()
+}
+
+// childCommand re-executes the test binary under a tighter address-space limit than the worker's own (a callee that
+// allocates without bound is stopped at 8 GiB instead of filling the machine); VERIF_CRASH_ULIMIT_KB overrides it.
+func childCommand(ctx context.Context) *exec.Cmd {
+	limit := os.Getenv("VERIF_CRASH_ULIMIT_KB")
+	if limit == "" {
+		limit = strconv.Itoa(8 * 1024 * 1024)
+	}
+	if bash, err := exec.LookPath("bash"); err == nil {
+		args := append([]string{"-c", "ulimit -v " + limit + " 2>/dev/null; exec \"$@\"", "x", os.Args[0]}, os.Args[1:]...)
+		return exec.CommandContext(ctx, bash, args...)
+	}
+	return exec.CommandContext(ctx, os.Args[0], os.Args[1:]...)
 }
